@@ -18,7 +18,7 @@ use petgraph::adj::List;
 use petgraph::algo;
 use petgraph::csr::Csr;
 use petgraph::data::Element;
-use petgraph::graph::{Graph, NodeIndex};
+use petgraph::graph::{Graph, IndexType, NodeIndex};
 use petgraph::graphmap::GraphMap;
 use petgraph::matrix_graph::MatrixGraph;
 use petgraph::stable_graph::StableGraph;
@@ -1448,10 +1448,132 @@ macro_rules! impl_replica_set {
                         compare_replica!("List<u8>", algo, a, p, &r0, acc, seed, seed2, run_algo!(algo, g, id, lb, a, p; $($lf),*));
                     }
                 }
+                // ---- entry points with two-graph or Graph-only signatures
+                extras::<$Ty>(cfg, a, p, acc, &g0, g1.as_ref(), g4.as_ref(), seed)?;
                 Ok(ok_replicas)
             }
         }
     };
+}
+
+/// is_isomorphic* between replicas of the same abstract graph (must hold, replicas are
+/// relabelings of each other), tred on DAGs and condensation: compared across encodings.
+fn extras<Ty: EdgeType + Clone + 'static>(
+    _cfg: &Cfg,
+    a: &Abs,
+    _p: &Params,
+    acc: &mut Acc,
+    g0: &Graph<u32, f64, Ty, u32>,
+    g1: Option<&Graph<u32, f64, Ty, u8>>,
+    g4: Option<&GraphMap<u32, f64, Ty, SimBuildHasher>>,
+    seed: u64,
+) -> Result<(), (String, String)> {
+    let dirtag = if a.directed { "@directed" } else { "@undirected" };
+    let ctx = format!("[abstract graph: directed={} n={} edges={:?}]", a.directed, a.n, a.edges);
+    macro_rules! fail {
+        ($algo:expr, $kind:expr, $rep:expr, $($arg:tt)*) => {{
+            let class = format!("{}{}/{}/{}", $algo, dirtag, $kind, $rep);
+            if acc.is_known(&format!("replicas/{}", class)) { acc.known_hit(&format!("replicas/{}", class)); } else {
+                return Err((class, format!("{} {}", format!($($arg)*), ctx)));
+            }
+        }};
+    }
+    if a.simple && a.n <= 8 {
+        set_seed(seed);
+        acc.op("is_isomorphic", 60);
+        if let Some(g1) = g1 {
+            match catch(|| (algo::is_isomorphic(g0, g1), algo::is_isomorphic(g1, g0), algo::is_isomorphic_matching(g0, g1, |x, y| x == y, |x, y| x == y), algo::is_isomorphic_subgraph(g1, g0))) {
+                Ok((x, y, z, w)) => {
+                    if !(x && y) { fail!("is_isomorphic", "differs", "Graph<u8>", "two encodings of the same abstract graph are reported non-isomorphic ({} / {})", x, y); }
+                    if !z { fail!("is_isomorphic_matching", "differs", "Graph<u8>", "label- and weight-preserving matching between two encodings of the same graph not found"); }
+                    if !w { fail!("is_isomorphic_subgraph", "differs", "Graph<u8>", "a graph is reported not to be a subgraph of another encoding of itself"); }
+                }
+                Err(p) => fail!("is_isomorphic", "panic", "Graph<u8>", "panicked: {}", p),
+            }
+        }
+        if let Some(g4) = g4 {
+            match catch(|| (algo::is_isomorphic(g0, g4), algo::is_isomorphic(g4, g0), algo::is_isomorphic_subgraph(g4, g0))) {
+                Ok((x, y, z)) => {
+                    if !(x && y) { fail!("is_isomorphic", "differs", "GraphMap", "two encodings of the same abstract graph are reported non-isomorphic ({} / {})", x, y); }
+                    if !z { fail!("is_isomorphic_subgraph", "differs", "GraphMap", "a graph is reported not to be a subgraph of another encoding of itself"); }
+                }
+                Err(p) => fail!("is_isomorphic", "panic", "GraphMap", "panicked: {}", p),
+            }
+        }
+    }
+    if a.directed {
+        // condensation (Graph only): the partition and the inter-component edge multiset
+        acc.op("condensation", 61);
+        let cond = |make_acyclic: bool, nodes: Vec<Vec<u32>>, edges: Vec<(usize, usize, f64)>| -> (BTreeSet<BTreeSet<u32>>, Vec<(BTreeSet<u32>, BTreeSet<u32>, i64)>) {
+            let _ = make_acyclic;
+            let part: BTreeSet<BTreeSet<u32>> = nodes.iter().map(|c| c.iter().copied().collect()).collect();
+            let mut es: Vec<(BTreeSet<u32>, BTreeSet<u32>, i64)> = edges.iter().map(|&(x, y, w)| (nodes[x].iter().copied().collect(), nodes[y].iter().copied().collect(), w as i64)).collect();
+            es.sort();
+            (part, es)
+        };
+        for make_acyclic in [false, true] {
+            let r0 = catch(|| { let c = algo::condensation(g0.clone(), make_acyclic); cond(make_acyclic, c.node_weights().cloned().collect(), c.edge_references().map(|e| (e.source().index(), e.target().index(), *e.weight())).collect()) });
+            if let Some(g1) = g1 {
+                let r1 = catch(|| { let c = algo::condensation(g1.clone(), make_acyclic); cond(make_acyclic, c.node_weights().cloned().collect(), c.edge_references().map(|e| (e.source().index(), e.target().index(), *e.weight())).collect()) });
+                match (&r0, &r1) {
+                    (Ok(x), Ok(y)) => {
+                        if x.0 != y.0 { fail!("condensation", "differs", "Graph<u8>", "component partition differs: {:?} vs {:?}", x.0, y.0); }
+                        // with make_acyclic parallel edges between components are dropped: which weight survives is unspecified
+                        let strip = |v: &Vec<(BTreeSet<u32>, BTreeSet<u32>, i64)>| -> Vec<(BTreeSet<u32>, BTreeSet<u32>)> { let mut s: Vec<_> = v.iter().map(|e| (e.0.clone(), e.1.clone())).collect(); s.sort(); s.dedup(); s };
+                        if make_acyclic { if strip(&x.1) != strip(&y.1) { fail!("condensation", "differs", "Graph<u8>", "condensed edges differ: {:?} vs {:?}", x.1, y.1); } }
+                        else if x.1 != y.1 { fail!("condensation", "differs", "Graph<u8>", "condensed edge multiset differs: {:?} vs {:?}", x.1, y.1); }
+                    }
+                    (Ok(_), Err(p)) => fail!("condensation", "panic", "Graph<u8>", "panicked: {}", p),
+                    _ => {}
+                }
+            }
+        }
+        // transitive reduction / closure of a DAG
+        let acyclic = (0..a.n).all(|v| !on_cycle(a, v));
+        if acyclic && a.simple {
+            acc.op("tred", 62);
+            fn norm(red: &List<(), u32>, clo: &List<(), u32>, topo_labels: &[usize]) -> (BTreeSet<(usize, usize)>, BTreeSet<(usize, usize)>) {
+                let f = |l: &List<(), u32>| -> BTreeSet<(usize, usize)> { l.edge_references().map(|e| (topo_labels[e.source().index()], topo_labels[e.target().index()])).collect() };
+                (f(red), f(clo))
+            }
+            let r0 = catch(|| {
+                let topo = algo::toposort(g0, None).map_err(|_| ()).unwrap();
+                let (l, _rev) = algo::tred::dag_to_toposorted_adjacency_list::<_, u32>(g0, &topo);
+                let (red, clo) = algo::tred::dag_transitive_reduction_closure(&l);
+                let labels: Vec<usize> = topo.iter().map(|&i| g0[i] as usize).collect();
+                norm(&red, &clo, &labels)
+            });
+            if let Some(g1) = g1 {
+                let r1 = catch(|| {
+                    let topo = algo::toposort(g1, None).map_err(|_| ()).unwrap();
+                    let (l, _rev) = algo::tred::dag_to_toposorted_adjacency_list::<_, u32>(g1, &topo);
+                    let (red, clo) = algo::tred::dag_transitive_reduction_closure(&l);
+                    let labels: Vec<usize> = topo.iter().map(|&i| g1[i] as usize).collect();
+                    norm(&red, &clo, &labels)
+                });
+                match (&r0, &r1) {
+                    (Ok(x), Ok(y)) => if x != y { fail!("tred", "differs", "Graph<u8>", "transitive reduction/closure differ: {:?} vs {:?}", x, y); },
+                    (Ok(_), Err(p)) => fail!("tred", "panic", "Graph<u8>", "panicked: {}", p),
+                    _ => {}
+                }
+            }
+            if let Some(g4) = g4 {
+                let r4 = catch(|| {
+                    let topo = algo::toposort(g4, None).map_err(|_| ()).unwrap();
+                    let (l, _rev) = algo::tred::dag_to_toposorted_adjacency_list::<_, u32>(g4, &topo);
+                    let (red, clo) = algo::tred::dag_transitive_reduction_closure(&l);
+                    let labels: Vec<usize> = topo.iter().map(|&k| k as usize).collect();
+                    norm(&red, &clo, &labels)
+                });
+                match (&r0, &r4) {
+                    (Ok(x), Ok(y)) => if x != y { fail!("tred", "differs", "GraphMap", "transitive reduction/closure differ: {:?} vs {:?}", x, y); },
+                    (Ok(_), Err(p)) => fail!("tred", "panic", "GraphMap", "panicked: {}", p),
+                    _ => {}
+                }
+            }
+        }
+    }
+    Ok(())
 }
 
 impl_replica_set!(Directed,
